@@ -2,9 +2,17 @@
 
 payload: {'libs': [{'contigs': [[name, len], ...], 'reads': [readspec, ...]}, ...],
           'cases': [{'lib': i | [i, j], 'opts': {...}}, ...]}
-readspec: {'name', 'flag', 'ref' (index or -1), 'pos', 'mapq', 'cigar' (str or None), 'tags': [[tag, 'i'|'Z', value], ...]}
-result:  {'libs': [readback per lib], 'cases': [{'cells': [[sample, key, num, den], ...], 'raw': [...] | None} | {'error': ..}]}
-Counts are returned as exact fractions (Fraction(float).limit_denominator, verified to 1e-9); floats never leave this file.
+readspec: {'name', 'flag', 'ref' (index or -1), 'pos', 'mapq', 'cigar' (str or None),
+           'tags': [[tag, 'i'|'Z'|'f'|'d', value], ...]}
+result:  {'libs': [readback per lib], 'cases': [{'cells': [[sample, key, num, den], ...], 'raw': [...] | None} | {'error': ..}],
+          'xcases': [...]}
+Counts are returned as exact fractions: Fraction(float) itself when its denominator is at most 2^40 (sums of halves,
+quarters, float tags), else Fraction(float).limit_denominator, verified to 1e-9 (thirds, fifths); floats never leave
+this file.  A float tag is read back as [numerator, denominator, str(value)] of the value pysam returns.
+
+xcases (the parts of create_count_table around the accumulation): {'lib': [i, ...] (one BAM per entry, may be empty),
+ 'opts': {...}, 'x': {'head': N|None, 'bulk': bool, 'showtags': bool, 'mode': 'df'|'pickle'|'pickle.gz'|'csv'|'none'}}
+ -> {'cells', 'raw'} | {'error'} | {'exit': True};  mode df = return_df=True; none = neither -o nor return_df.
 """
 import os, sys, collections
 from fractions import Fraction
@@ -46,15 +54,29 @@ def make_bam(path, lib):
             back.append({'name': a.query_name, 'flag': a.flag, 'refname': a.reference_name,
                          'pos': a.reference_start, 'end': a.reference_end, 'mapq': a.mapping_quality,
                          'cigar': a.cigarstring, 'ops': [op for op, l in (a.cigartuples or [])],
-                         'tags': [[k, ('i' if isinstance(v, int) else 'Z'), v] for k, v in a.get_tags()]})
+                         'tags': [tag_back(k, v) for k, v in a.get_tags()]})
     return back
+
+
+def tag_back(k, v):
+    if isinstance(v, float):
+        if v != v or v in (float('inf'), float('-inf')):
+            return [k, 'f', [0, 0, str(v)]]
+        n, d = v.as_integer_ratio()
+        return [k, 'f', [n, d, str(v)]]
+    return [k, ('i' if isinstance(v, int) else 'Z'), v]
 
 
 def frac(v):
     v = float(v)
     if v != v:
         return None
-    fr = Fraction(v).limit_denominator(MAXDEN)
+    if v in (float('inf'), float('-inf')):
+        raise ValueError('count %r is not finite' % (v,))
+    fr = Fraction(v)
+    if fr.denominator <= 2 ** 40:
+        return fr
+    fr = fr.limit_denominator(MAXDEN)
     if abs(float(fr) - v) > 1e-9 * max(1.0, abs(v)):
         raise ValueError('count %r is not a small rational' % (v,))
     return fr
@@ -130,7 +152,7 @@ def filter_decisions(T, args, o, bams):
     return out
 
 
-def option_values(o, bams, scratch):
+def option_values(o, bams, scratch, x=None):
     """the attribute values a caller sets on the options namespace for option dict o (files named by content)"""
     import hashlib
     bl = bed = None
@@ -144,9 +166,10 @@ def option_values(o, bams, scratch):
         bed = os.path.join(scratch, 'rg_%s.bed' % hashlib.sha1(txt.encode()).hexdigest()[:16])
         with open(bed, 'w') as fh:
             fh.write(txt)
+    x = x or {}
     return dict(
-        alignmentfiles=list(bams), head=None, o=None, bin=None, binTag='DS', sliding=None,
-        bedfile=bed, showtags=False, featureTags=o.get('featureTags'),
+        alignmentfiles=list(bams), head=x.get('head'), o=x.get('o'), bin=None, binTag='DS', sliding=None,
+        bedfile=bed, showtags=bool(x.get('showtags', False)), featureTags=o.get('featureTags'),
         joinedFeatureTags=o.get('joinedFeatureTags'), byValue=o.get('byValue'),
         sampleTags=o.get('sampleTags', 'SM'), proper_pairs_only=o.get('proper_pairs_only', False),
         no_indels=o.get('no_indels', False), max_base_edits=o.get('max_base_edits'),
@@ -155,7 +178,7 @@ def option_values(o, bams, scratch):
         doNotDivideFragments=o.get('doNotDivideFragments', False), contig=o.get('contig'), blacklist=bl,
         r1only=o.get('r1only', False), r2only=o.get('r2only', False), filterMP=o.get('filterMP', False),
         splitFeatures=o.get('splitFeatures', False), featureDelimiter=o.get('featureDelimiter', ','),
-        noNames=o.get('noNames', False), keepOverBounds=False, bulk=False)
+        noNames=o.get('noNames', False), keepOverBounds=False, bulk=bool(x.get('bulk', False)))
 
 
 def run_table(T, args):
@@ -186,6 +209,84 @@ def run_table(T, args):
     except BaseException as e:
         r = {'error': '%s: %s' % (type(e).__name__, e)}
         # an exception after the table was accumulated (DataFrame naming) keeps the captured table
+        if len(captured) == 1:
+            try:
+                r['raw'] = cells_of_raw(captured[0])
+            except Exception:
+                pass
+        return r
+
+
+def cells_of_csv(path):
+    """a --bulk / single-column CSV written by DataFrame.to_csv: index columns ..., one value column.
+    key components come back as text (that is all a CSV holds)"""
+    import csv
+    with open(path, newline='') as fh:
+        rows = list(csv.reader(fh))
+    if not rows:
+        return []
+    head, cells = rows[0], []
+    if len(head) < 2:
+        raise ValueError('csv: no value column: %r' % (head,))
+    col = head[-1]
+    for row in rows[1:]:
+        if not row:
+            continue
+        if len(row) != len(head):
+            raise ValueError('csv: ragged row %r' % (row,))
+        if row[-1] == '':
+            continue
+        fr = frac(float(row[-1]))
+        if fr is None or fr == 0:
+            continue
+        cells.append([[col], list(row[:-1]), fr.numerator, fr.denominator])
+    return cells
+
+
+def run_x(T, args, mode, outpath):
+    """create_count_table with file output / --showtags / -head.  'exit' = the call ended without producing a table
+    (SystemExit, or it returned nothing and wrote nothing)."""
+    import pandas as pd
+    orig_from_dict = pd.DataFrame.from_dict
+    captured = []
+
+    def spy(data, *a, **k):
+        try:
+            captured.append({s: dict(c) for s, c in data.items()})
+        except Exception:
+            pass
+        return orig_from_dict(data, *a, **k)
+    old = sys.stdout
+    sys.stdout = open(os.devnull, 'w')
+    pd.DataFrame.from_dict = spy
+    raw = lambda: cells_of_raw(captured[0]) if len(captured) == 1 else None
+    try:
+        try:
+            if mode == 'df':
+                ret = T.create_count_table(args, return_df=True)
+            else:
+                ret = T.create_count_table(args)
+        finally:
+            sys.stdout.close()
+            sys.stdout = old
+            pd.DataFrame.from_dict = orig_from_dict
+        if mode == 'df':
+            if ret is None:
+                return {'exit': True}
+            return {'cells': cells_of_df(ret), 'raw': raw()}
+        if outpath is None or not os.path.exists(outpath):
+            if not captured:
+                return {'exit': True}
+            return {'error': 'NoOutput: no file was written'}
+        if mode == 'csv':
+            return {'cells': cells_of_csv(outpath), 'raw': raw(), 'csv': True}
+        return {'cells': cells_of_df(pd.read_pickle(outpath)), 'raw': raw()}
+    except KeyboardInterrupt:
+        raise
+    except SystemExit:
+        return {'exit': True}
+    except BaseException as e:
+        r = {'error': '%s: %s' % (type(e).__name__, e)}
         if len(captured) == 1:
             try:
                 r['raw'] = cells_of_raw(captured[0])
@@ -284,7 +385,22 @@ def handler(p):
             except Exception as e:
                 steps.append({'error': 'Harness%s: %s' % (type(e).__name__, e)})
         hout.append(steps)
-    return {'libs': backs, 'cases': out, 'histories': hout}
+    xout = []
+    for n, case in enumerate(p.get('xcases', [])):
+        try:
+            x = dict(case['x'])
+            mode = x.get('mode', 'df')
+            outpath = None
+            if mode in ('pickle', 'pickle.gz', 'csv'):
+                outpath = os.path.join(scratch, 'out%d.%s' % (n, mode))
+                x['o'] = outpath
+            bams = [paths[i] for i in case['lib']]
+            xout.append(run_x(T, SimpleNamespace(**option_values(case['opts'], bams, scratch, x)), mode, outpath))
+            if outpath and os.path.exists(outpath):
+                os.remove(outpath)
+        except Exception as e:
+            xout.append({'error': 'Harness%s: %s' % (type(e).__name__, e)})
+    return {'libs': backs, 'cases': out, 'histories': hout, 'xcases': xout}
 
 
 fw.impl_main(handler)
